@@ -225,16 +225,34 @@ func runC05(c *fw.Case) {
 	var opErr error
 	var wg sync.WaitGroup
 	var clientsDone int32
-	for cl := 0; cl < nClients; cl++ {
+	// every 2nd history (half of the live-compactor ones, half of the chaos ones) has a READ STORM on top: 4..8 extra clients that only call Get, without yielding, so that many
+	// lookups are inside the same table readers at the same time (state that a reader carries from one lookup to the
+	// next — a shared hasher, a shared scratch buffer — is only disturbed by overlapping lookups of flushed keys)
+	nReaders := 0
+	if c.Idx%4 == 1 || c.Idx%4 == 2 {
+		nReaders = 4 + c.Idx/4%5
+		c.Obs("histories_with_a_read_storm", 1)
+		if c.Idx%8 >= 4 {
+			// and half of those a wider key universe: most tables then hold a single key, so a lookup that is answered
+			// from another lookup's state (filter, index position) lands on a table that does not hold its key
+			nKeys += 6
+		}
+		c.HashAdd(fmt.Sprintf("readers%d", nReaders))
+	}
+	for cl := 0; cl < nClients+nReaders; cl++ {
 		wg.Add(1)
 		seed := r.Int63()
 		go func(cl int, seed int64) {
 			defer wg.Done()
 			cr := rand.New(rand.NewSource(seed))
+			readOnly := cl >= nClients
 			local := make([]porcupine.Operation, 0, perClient)
 			for i := 0; i < perClient; i++ {
 				k := fmt.Sprintf("key%d", cr.Intn(nKeys))
 				x := cr.Intn(100)
+				if readOnly {
+					x = 99
+				}
 				var in linIn
 				var out linOut
 				var e error
@@ -280,7 +298,7 @@ func runC05(c *fw.Case) {
 					break
 				}
 				local = append(local, porcupine.Operation{ClientId: cl, Input: in, Call: call, Output: out, Return: ret})
-				if cr.Intn(8) == 0 {
+				if !readOnly && cr.Intn(8) == 0 {
 					runtime.Gosched()
 				}
 			}
